@@ -66,3 +66,13 @@ package phase3
 //@     invariant 0 <= k
 //@     invariant[|C12] forall r int, c int :: 0 <= r && r < m && 0 <= c && c < n && mat[r][c] != nil && (r < i || (r == i && c < j2)) ==> (exists q int :: 0 <= q && q < k && q < len(nodes) && nodes[q] == mat[r][c])
 //@     invariant[|C12] forall q int :: 0 <= q && q < len(nodes) && nodes[q] != nil ==> (exists r int, c int :: 0 <= r && r < m && 0 <= c && c < n && nodes[q] == mat[r][c])
+
+// ---------------------------------------------------------------------------
+// position bookkeeping of the weighted-median orderer (C01): getPos's sanity panic fires exactly when the map and
+// the node disagree
+//@ func wmedianProcessor.getPos
+//@   requires p != nil && n != nil && has(p.positions, n) && p.positions[n] == n.LayerPos
+//@   ensures result == n.LayerPos
+//@ func wmedianProcessor.setPos
+//@   requires p != nil && n != nil
+//@   ensures has(p.positions, n) && p.positions[n] == pos && n.LayerPos == pos
